@@ -37,22 +37,26 @@ def run(ctx, eng):
     entries = public_entries(eng)
     ctx.record('public_entry_points', len(entries))
     ctx.floor('public_entry_points', 20)
+    from . import c17
+    reach = set()
+    for fi in entries:
+        reach |= c17.reachable_from(eng, fi.qual)
+    c17.require_summaries(ctx, eng, reach)
     for fi in entries:
         esc = eng.R.of(fi.qual)
-        bad = {}
+        bad = []
         for x, w in esc.items():
             if m.exc_is_subclass(x, 'H2Error'):
                 continue
-            if x in ('ValueError', 'TypeError'):
-                org = w[-1]
-                if org[0] == fi.qual and org[2].startswith('raise '):
+            for org, pth in w.origins.items():
+                if x in ('ValueError', 'TypeError') and \
+                        org[0] == fi.qual and org[2].startswith('raise '):
                     continue        # the method's own argument check
-            bad[x] = w
-        for x, w in sorted(bad.items()):
-            org = w[-1]
+                bad.append((x, org, pth))
+        for x, org, pth in sorted(bad):
             ctx.ob('ESC', fi.qual, '%s<-%s|%s' % (
                 x, org[0], ' '.join(org[2].split())[:80]), False,
-                '%s can leave %s: %s' % (x, fi.name, format_witness(w)),
+                '%s can leave %s: %s' % (x, fi.name, format_witness(pth)),
                 loc=org[1])
         if not bad:
             ctx.ob('ESC', fi.qual, 'documented exceptions only', True,
@@ -127,3 +131,9 @@ def run(ctx, eng):
                                   for p in paths))
     ctx.assume('integer arguments fit their wire width; arguments have the '
                'documented types')
+    cm.include(ctx, eng, 'C02',
+               lambda o: o.rule == 'COH.frame-size' or (
+                   o.rule == 'COH.apply-map' and 'MAX_FRAME_SIZE' in o.desc),
+               'the per-stream frame-size cache that slices header blocks '
+               'is the peer\'s current limit on every stream (otherwise '
+               'the post-append assertion fires in a public call)')
